@@ -66,6 +66,7 @@ type Session struct {
 	Closed    bool
 	Executed  [][]string // every command executed on this session, in order (transaction members included)
 	Received  [][]string // every command received (also queued / rejected ones)
+	Pushes    [][]string // every push frame sent to this session, in order: kind followed by its string arguments ("<nil>" for null)
 	asking    bool
 	pendInval []string // self invalidations delivered after the current reply
 	executing bool
@@ -268,6 +269,22 @@ func (ss *Session) push(r Reply) {
 	if !ss.V3 && r.T == '>' && len(r.A) > 0 && r.A[0].S == "invalidate" {
 		return // RESP2 sessions without redirect get no invalidations
 	}
+	var rec []string
+	for _, a := range r.A {
+		switch {
+		case a.T == '_':
+			rec = append(rec, "<nil>")
+		case len(a.A) > 0:
+			for _, b := range a.A {
+				rec = append(rec, b.S)
+			}
+		case a.T == ':':
+			rec = append(rec, strconv.FormatInt(a.I, 10))
+		default:
+			rec = append(rec, a.S)
+		}
+	}
+	ss.Pushes = append(ss.Pushes, rec)
 	ss.Out(Encode(nil, r, ss.V3))
 }
 
